@@ -32,6 +32,7 @@ func init() {
 }
 
 func runC03(c *an.Ctx) {
+	r7RawURI(c, "R2")
 	c03Tables(c)
 	c03DecodeOnce(c)
 	c03Flags(c)
